@@ -60,7 +60,7 @@ def main():
                              for v in out.values())
             results[name] = {'property': prop, 'status': 'caught' if caught else 'MISSED',
                              'with_failing_input': with_input, 'checks': out}
-            print(name, results[name]['status'], 'with-input' if with_input else '', out)
+            print(name, results[name]['status'], 'with-input' if with_input else '', {k: (v['exit'], len(v['violations']), v['wall_s']) for k, v in out.items()}, flush=True)
         finally:
             shutil.rmtree(tmp, ignore_errors=True)
     json.dump(results, open(resf, 'w'), indent=1, sort_keys=True)
